@@ -34,6 +34,10 @@ def run(ctx):
     for n_ev, ev in enumerate(evs):
         N, npol = ev["N"], ev["npol"]
         fs = setfs(n_ev % 2)
+        if N % gv.sps == 0:
+            with warnings.catch_warnings():
+                warnings.simplefilter("ignore")
+                gv(sps=gv.sps, R=gv.R, N=N // gv.sps)          # global grid of exactly the record's length in force
         X0 = np.array([[complex(*v) for v in row] for row in ev["X0"]])
         x = np.fft.ifft(X0, axis=-1)
         sig = optical_signal(x if npol == 2 else x[0])
@@ -75,10 +79,14 @@ def run(ctx):
 
     for it in range(1000 if T else 60):
         fs = setfs(it % 2)
-        n = rnd.choice([8, 9, 64, 125, 1024, 31, 2, 3])
+        n = rnd.choice([8, 9, 64, 125, 1024, 31, 2, 3, 16, 128])
         npol = rnd.choice([1, 2])
         rs = np.random.RandomState(it)
         x = (rs.randn(npol, n) + 1j * rs.randn(npol, n)) * 0.1
+        if n % gv.sps == 0 and it % 3 == 0:
+            with warnings.catch_warnings():
+                warnings.simplefilter("ignore")
+                gv(sps=gv.sps, R=gv.R, N=n // gv.sps)          # the global grid has exactly the record's length
         sig = optical_signal(x if npol == 2 else x[0])
         sig.signal.flags.writeable = False
         sc = 1.0 / (fs * 1e-12) ** 2 * rnd.choice([0.01, 1, 30])        # ps^2 scale that matters at this fs
